@@ -77,6 +77,24 @@ func famC05Arrive() []explore.Event {
 	}
 }
 
+// refused commands: FETCH / STORE / SEARCH that are answered NO (unknown charset, read-only mailbox) must hold the
+// removals back like the successful ones.
+func famC05Refused() []explore.Event {
+	return []explore.Event{
+		ev("deliver", 0),
+		conn("remove:INBOX:first"),
+		ev("cmd", 1, `STORE 1 +FLAGS (\Deleted)`),
+		ev("cmd", 1, `EXPUNGE`),
+		ev("cmd", 0, `SEARCH CHARSET X-UNKNOWN ALL`),
+		ev("cmd", 0, `UID SEARCH CHARSET X-UNKNOWN SUBJECT x`),
+		ev("cmd", 0, `EXAMINE INBOX`),
+		ev("cmd", 0, `STORE 1 +FLAGS (\Flagged)`),
+		ev("cmd", 0, `UID STORE 1:* -FLAGS (\Flagged)`),
+		ev("cmd", 0, `FETCH 1:* (FLAGS)`),
+		ev("cmd", 0, `NOOP`),
+	}
+}
+
 func c05Families(d int) []explore.Family {
 	o := []string{"c05", "c01", "c02"}
 	sel3 := []string{"INBOX", "INBOX", "m2"}
@@ -85,6 +103,7 @@ func c05Families(d int) []explore.Family {
 		mboxFam("permitting-kinds", d, o, 3, sel3, famC05Kinds2()),
 		mboxFam("idle-close-reselect", d, o, 2, nil, famC05Idle()),
 		mboxFam("arrive-then-remove", d, o, 2, nil, famC05Arrive()),
+		mboxFam("refused-commands", d, o, 2, nil, famC05Refused()),
 	}
 }
 
